@@ -2772,6 +2772,43 @@ def _rule_zone(ctx, rep):
             )
 
 
+def _rule_accepts(ctx, rep):
+    """the journal accepts every complete execution message (added after seeded change C05-9: chronicle.append raised for a
+    falsy run id; regressions are always run under run id 0, so their outcomes were never journalled and - the exception
+    leaving Hand._res before purge - never withdrawn either)"""
+    prog = ctx.prog
+    f = prog.nfunc('dawgie.pl.logger.chronicle.append')
+    rep.analysed(f)
+    with rep.rule(
+        'R-C18-10',
+        'chronicle.append refuses a message only for missing keys: no `raise` of append is decided by the value of a field (run id 0, the all-targets marker and empty strings are legitimate values)',
+        floor=1,
+        breaks='runs with such a value (every regression: run id 0) are never recorded, and the exception cuts short the reply handling that called append',
+    ) as r:
+        ev = f.params()[0] if f.params() else 'entry'
+        r.instance()
+        bad = []
+        for n in f.own_nodes():
+            if not isinstance(n, ast.If):
+                continue
+            raises = any(isinstance(x, ast.Raise) for b in n.body for x in ast.walk(b)) or any(isinstance(x, ast.Raise) for b in n.orelse for x in ast.walk(b))
+            if not raises:
+                continue
+            # the test may only ask whether keys are present: no subscript / .get read of the entry's values
+            for x in ast.walk(n.test):
+                if isinstance(x, ast.Subscript) and isinstance(x.value, ast.Name) and x.value.id == ev:
+                    bad.append(n)
+                if isinstance(x, ast.Call) and isinstance(x.func, ast.Attribute) and x.func.attr in ('get', 'values', 'items') and isinstance(x.func.value, ast.Name) and x.func.value.id == ev:
+                    bad.append(n)
+        r.check(
+            not bad,
+            f'{f.qname}:rejects-only-missing-keys',
+            where(f, bad[0] if bad else None),
+            'every raise is decided by key presence only',
+            f'{f.qname} raises depending on the value of a field ({norm(bad[0].test)[:60] if bad else ""}): messages carrying a legitimate falsy value are never journalled',
+        )
+
+
 def check(ctx):
     # sa/inline.py caches normal forms under id(prog): a Program created after an earlier one was freed (variants
     # analysed one after the other in one process) can get the same id and be served the earlier program's functions
@@ -2812,6 +2849,7 @@ def check(ctx):
     _rule_fresh(ctx, rep)
     _rule_opaque(ctx, rep)
     _rule_zone(ctx, rep)
+    _rule_accepts(ctx, rep)
     return rep
 
 
@@ -2871,6 +2909,7 @@ def _load_with_helper(cmp, tail):
 # Texts marked (fixed) exist only once pending_fixes/C18-1.diff and C18-2.diff are applied; on the unrepaired tree those
 # variants are skipped (anchor text absent).
 VARIANTS = [
+    V('journal rejects run id 0', 'B', 'pl/logger/chronicle.py', 'append', "for key, value in entry['timing'].items():", "if not entry['runid']:\n        raise ValueError('no run id')\n    for key, value in entry['timing'].items():", 'R-C18-10'),
     V('history bound relabelled as UTC', 'B', 'fe/api/schedule.py', 'failed', 'datetime.fromisoformat(after[0]) if after else None', '(datetime.fromisoformat(after[0]).replace(tzinfo=None)) if after else None', 'R-C18-9'),
     V('_load memoises parsed journals at module level', 'B', 'pl/logger/chronicle.py', None, 'def _load(after: datetime, before: datetime, journal: str, succeeded: bool):\n    entries = []', '_parsed = {}\n\n\ndef _load(after: datetime, before: datetime, journal: str, succeeded: bool):\n    entries = _parsed.setdefault(journal, [])', 'R-C18-7'),
     V('complete logs the start time before recording', 'B', 'pl/schedule.py', 'complete', "if target == '__all__':", "log.info('started %s', timing['started'])\n    if target == '__all__':", 'R-C18-8'),
